@@ -293,3 +293,18 @@ pub fn server_start(
 
     Ok((ServerRef { core_ref, comm_ref }, future))
 }
+
+#[cfg(feature = "verif")]
+impl ServerRef {
+    pub(crate) fn verif_new(core_ref: CoreRef, comm_ref: CommSenderRef) -> Self {
+        ServerRef { core_ref, comm_ref }
+    }
+
+    pub(crate) fn verif_core_ref(&self) -> &CoreRef {
+        &self.core_ref
+    }
+
+    pub(crate) fn verif_comm_ref(&self) -> &CommSenderRef {
+        &self.comm_ref
+    }
+}
